@@ -33,13 +33,13 @@ func runC40(p *core.Prog, r *core.Report) {
 		}
 	}
 	const (
-		eDone  = "(pkg/timers.EpochTimers).done"
-		eNext  = "(pkg/timers.EpochTimers).nextTickAt"
-		dDone  = "(pkg/timers.deltaHandler).done"
-		dNext  = "(pkg/timers.deltaHandler).nextTickAt"
-		eHs    = "(pkg/timers.EpochTimers).eHandlers"
-		dHs    = "(pkg/timers.EpochTimers).deltaHandlers"
-		dTick  = "field:(pkg/timers.deltaHandler).tick"
+		eDone = "(pkg/timers.EpochTimers).done"
+		eNext = "(pkg/timers.EpochTimers).nextTickAt"
+		dDone = "(pkg/timers.deltaHandler).done"
+		dNext = "(pkg/timers.deltaHandler).nextTickAt"
+		eHs   = "(pkg/timers.EpochTimers).eHandlers"
+		dHs   = "(pkg/timers.EpochTimers).deltaHandlers"
+		dTick = "field:(pkg/timers.deltaHandler).tick"
 	)
 	isCurr := func(fn *ssa.Function, x ssa.Value) bool { return core.ParamIndex(fn, x) == 1 }
 	eDueG, eDueD := core.LEFacts("epoch-due", fieldLoad(eNext), isCurr, false)
